@@ -61,6 +61,70 @@ use super::*;
 use super::il::*;
 broadcast use {location_hash::axiom_function_location_obeys_key_model, location_hash::axiom_program_location_obeys_key_model,
     location_hash::axiom_ref_function_location_obeys_key_model, location_hash::axiom_ref_program_location_obeys_key_model};
+
+// ---- end-to-end statements of the property, proved from the contracts alone (template code, nothing extracted)
+
+/// owned <-> borrowed round trip on the same and on a cloned program
+pub fn client_roundtrip<'p>(program: &'p Program, l: RefProgramLocation<'p>)
+    requires program.program_wf(), program.holds_function(*l.function), l.rpl_wf(),
+{
+    let owned: ProgramLocation = l.clone().into();
+    let same = owned.apply(program);
+    assert(same == Ok::<RefProgramLocation, Error>(l));
+    let cloned = program.clone();
+    let other = owned.apply(&cloned);
+    assert(other == Ok::<RefProgramLocation, Error>(l));
+    let owned_fl: FunctionLocation = l.function_location().clone().into();
+    let f2 = l.function().clone();
+    let back = owned_fl.apply(&f2);
+    assert(back == Ok::<RefFunctionLocation, Error>(l.function_location));
+}
+
+/// stepping forward and backward are converse: y is among x.forward() iff x is among y.backward()
+pub fn client_converse<'p>(x: RefProgramLocation<'p>, y: RefProgramLocation<'p>)
+    requires x.rpl_wf(), y.rpl_wf(), *x.function == *y.function,
+{
+    let fw = x.forward();
+    let bw = y.backward();
+    assert(fw is Ok && bw is Ok);
+    let fw = fw.unwrap();
+    let bw = bw.unwrap();
+    proof {
+        lemma_forward_backward_converse(x, y, fw@, bw@);
+        lemma_succ_pred_converse(*x.function, x.loc(), y.loc());
+    }
+    assert((exists|i: int| 0 <= i < fw@.len() && (#[trigger] fw@[i]).loc() == y.loc())
+        <==> (exists|j: int| 0 <= j < bw@.len() && (#[trigger] bw@[j]).loc() == x.loc()));
+}
+
+/// locations() lists every location exactly once; the entry location is one of them
+pub fn client_locations(f: &Function)
+    requires f.function_wf(),
+{
+    let v = f.locations();
+    proof { lemma_locations_set(*f, v@); }
+    assert(v@.map_values(|x: RefFunctionLocation| loc_of(x)).no_duplicates());
+    assert(ISet::new(|l: Loc| v@.map_values(|x: RefFunctionLocation| loc_of(x)).contains(l)) =~= all_locs(*f));
+}
+
+/// from_address finds an instruction with the address whenever the program has one
+pub fn client_from_address(program: &Program, address: u64, k: usize, b: usize, q: usize)
+    requires
+        program.program_wf(), program.functions@.contains_key(k), (*program.functions@[k]).control_flow_graph.has_block(b),
+        q < (*program.functions@[k]).control_flow_graph.blocks_view()[b].instructions@.len(),
+        (*program.functions@[k]).control_flow_graph.blocks_view()[b].instructions@[q as int].address == Some(address),
+{
+    let r = RefProgramLocation::from_address(program, address);
+    assert(r is Some) by {
+        if r is None {
+            assert(fn_no_addr(*program.functions@[k], address));
+            assert(block_no_addr((*program.functions@[k]).control_flow_graph.graph.vertices@[b], address));
+        }
+    }
+    let x = r.unwrap();
+    assert(x.rpl_wf() && program.holds_function(*x.function) && rfl_has_addr(x.function_location, address));
+}
+
 proof fn vf_canary_loc_client() ensures false {}
 } // mod loc_client
 
